@@ -148,7 +148,19 @@ fn check_list(rep: &mut Report, k: &Kind, entries: &[Entry], tag: &str) {
                     a.sort();
                     b.sort();
                     let grouped = got.windows(2).all(|w| w[0].0 <= w[1].0);
-                    if a != b {
+                    let keys = |v: &[Entry]| v.iter().map(|e| (e.0, e.1, e.2)).collect::<std::collections::BTreeSet<_>>();
+                    let has_dup = keys(entries).len() != entries.len();
+                    if has_dup {
+                        // outside the statement's 'distinct signals' precondition but inside its quantifier
+                        // ("more than 31 entries per satellite"): only what every reading demands -- nothing
+                        // invented, no (satellite, signal) key lost, not more entries than given
+                        let invented = got.iter().any(|e| !a.contains(e));
+                        if invented || keys(&got) != keys(entries) || got.len() > entries.len() {
+                            rep.violation("C16", format!("{}:duplicate-keys-list-garbled", k.number), format!("msg {}: {} entries ({} distinct satellite/signal keys) built without error, decoded {} entries with {} distinct keys{}", k.number, entries.len(), keys(entries).len(), got.len(), keys(&got).len(), if invented { ", some never given" } else { "" }), size, desc());
+                        } else {
+                            rep.outcome("duplicate-keys-list-kept");
+                        }
+                    } else if a != b {
                         let sats_in: std::collections::BTreeSet<u8> = entries.iter().map(|e| e.0).collect();
                         rep.violation("C16", format!("{}:entries-lost-or-changed:{}", k.number, if got.len() < entries.len() { "fewer" } else if got.len() > entries.len() { "more" } else { "different" }),
                             format!("msg {}: {} entries on {} satellites built without error, decoded {} entries", k.number, entries.len(), sats_in.len(), got.len()), size, desc());
@@ -236,6 +248,17 @@ fn boundary(rep: &mut Report, k: &Kind) {
             let mut e: Vec<Entry> = k.sigs.iter().enumerate().map(|(j, sg)| (sat, sg.1, sg.2, g(j))).collect();
             e.rotate_left(rot);
             check_list(rep, k, &e, "all-signals-one-satellite");
+        }
+    }
+    // more than 31 entries on one satellite (only possible with repeated signals): 32, 33, 255..=258, 287, 288, 390
+    for n in [31usize, 32, 33, 63, 64, 255, 256, 257, 258, 287, 288, 389, 390] {
+        for sat in [0u8, k.max_sat] {
+            let e: Vec<Entry> = (0..n).map(|i| (sat, k.sigs[i % ns].1, k.sigs[i % ns].2, g(i))).collect();
+            check_list(rep, k, &e, "many-entries-one-satellite");
+            // the same with a second satellite in front / behind
+            let mut e2 = vec![(if sat == 0 { 1 } else { 0 }, k.sigs[0].1, k.sigs[0].2, g(999))];
+            e2.extend(e.iter().cloned().take(389));
+            check_list(rep, k, &e2, "many-entries-one-satellite+1");
         }
     }
     // empty list
@@ -350,7 +373,7 @@ pub fn c16(ctx: &Ctx) -> (Report, Meta) {
     rep.sample(json!({"number":1059,"entries":[[63,1,"C",0.37],[0,5,"Q",-1.2],[63,2,"W",0.01]],"expect":"Err, or decodes to the same multiset grouped by ascending satellite"}));
     rep.sample(json!({"number":1059,"scope":"all 64 satellites x 1 signal","expect":"Err (the 6-bit satellite count cannot hold 64) - never a frame that loses entries"}));
     let meta = Meta {
-        rule: "1059 / 1065: every assignment of the satellites {0,1,31,32,63} (clipped to the message's range) to subsets of {first, second, last} recognised signal (8^n - 1 lists), each in every permutation for <= 5 entries (6 structured orders above; capped at 24 per list in quick); boundary scopes: all / all-but-one satellites, 390 and 389 entries, entries of a satellite scattered through the list, all signals on one satellite in every rotation, empty list, extreme grid biases; 1230: all signal subsets in all permutations. Oracle: build returns Err, or the built frame decodes to the same multiset of (satellite, signal, bias) with satellites non-decreasing. Hostile frames (63 satellites x 31 biases, payloads 9..1023 bytes, recognised / repeated / unrecognised ids): no panic, at most 390 entries. states = lists / frames; transitions = build and decode calls".into(),
+        rule: "1059 / 1065: every assignment of the satellites {0,1,31,32,63} (clipped to the message's range) to subsets of {first, second, last} recognised signal (8^n - 1 lists), each in every permutation for <= 5 entries (6 structured orders above; capped at 24 per list in quick); boundary scopes: all / all-but-one satellites, 390 and 389 entries, entries of a satellite scattered through the list, all signals on one satellite in every rotation, 31..390 entries on one satellite (repeated signals; relaxed oracle: no key lost, nothing invented), empty list, extreme grid biases; 1230: all signal subsets in all permutations. Oracle: build returns Err, or the built frame decodes to the same multiset of (satellite, signal, bias) with satellites non-decreasing. Hostile frames (63 satellites x 31 biases, payloads 9..1023 bytes, recognised / repeated / unrecognised ids): no panic, at most 390 entries. states = lists / frames; transitions = build and decode calls".into(),
         exhaustive: true,
         bounds: json!({"satellite_scope":[0,1,31,32,63],"signals_per_satellite":"subsets of 3","permutations":"all for <=5 entries"}),
         assumptions: vec!["bias values are grid values obtained from the real decoder for a given pattern (C08 decides the grid round trip)".into()],
